@@ -120,7 +120,10 @@ DISCHARGE = [
 
 
 def norm_guard(g):
-    """one spelling for equivalent unsigned comparisons with zero: `0 < x`, `0 != x`, `x != 0`, `1 <= x`"""
+    """one spelling for equivalent unsigned comparisons with zero: `0 < x`, `0 != x`, `x != 0`, `1 <= x`; a field of
+    `self` and a parameter of the same name read alike (a method turned into an associated function over its fields)"""
+    g = re.sub(r"\*+self\.(\w+)", r"\1", g)
+    g = re.sub(r"&\*+(\w+)", r"\1", g)
     m = re.match(r"^0_(\w+) (?:<|!=) (.+)$", g)
     if m:
         return "%s != 0_%s" % (m.group(2), m.group(1))
